@@ -433,8 +433,12 @@ func (env *Zlisp) ResolveCallable(funcobj Sexp) (Sexp, string, error) {
 }
 
 func (env *Zlisp) PrepareCallExprArgs(function *SexpFunction, args []Sexp) error {
+	var lazy []bool
+	if function != nil && !function.user && function.HasLazyFormals() {
+		lazy = function.lazyCallArgs(args)
+	}
 	for i, expr := range args {
-		if function != nil && !function.user && function.HasLazyFormals() && function.IsLazyCallArg(i) {
+		if lazy != nil && lazy[i] {
 			env.datastack.PushExpr(NewSourceLazyArg(env, expr))
 			continue
 		}
